@@ -17,6 +17,13 @@ CLAIMED = {
             TRUST + '; IEEE-754 encoding of doubles in CBMC', 'bounded symbolic execution (clang IR -> C -> CBMC) + SAT/SMT portfolio', 'DESIGN.md section 4, C13'),
 }
 
+CLAIMED['C12'] = (
+    'Every coefficient is an independent symbolic 32-bit word, so each query covers all 2^32 values at every position: digits in '
+    '[-Bg/2,Bg/2), equal to an independent oracle digit, |x - sum d_p Bg^-p| < 2^(32-l*Bgbit) (0 when l*Bgbit=32), input polynomial '
+    'bit-identical after the call, TLWE wrapper block layout, derived parameter fields; scalar code path and the AVX2 inline-asm path '
+    '(rendered by asm2c, compared with the real instructions natively on every run). Bounds: valid (l,Bgbit) grid, N<=4 scalar, N in {8,16} AVX2.',
+    TRUST + '; asm2c rendering of the three AVX2 loops', 'bounded symbolic execution (clang IR + inline asm -> C -> CBMC) + SAT portfolio', 'DESIGN.md section 4, C12')
+
 NOT_APPLICABLE = {
     'C02': 'statistical claim (mean/stdev/tail of the phase error of the real FFT pipeline at N=1024): a solver decides for-all/exists and the for-all version is false; its deterministic mechanisms are decided under C12, C08, C07, C19, C01',
     'C10': 'double-precision rounding error of 2048-point FFTs, three of five back-ends being hand-written AVX/FMA assembly or FFTW: bit-precise FP is out of solver reach beyond N~2 and a sound real-arithmetic over-approximation exceeds the stated 2 units',
